@@ -3,7 +3,7 @@
    runner and by vm_compute inside Coq (Cases_*.v). *)
 From Coq Require Import List NArith ZArith Bool String.
 From Coq.Strings Require Import Byte.
-From OAP Require Import Base.Bytes Base.Res Base.Text Gen.Consts Model.Handshake Model.Metadata Model.Header Model.Frame Model.Stream.
+From OAP Require Import Base.Bytes Base.Res Base.Text Gen.Consts Model.Handshake Model.Metadata Model.Header Model.Frame Model.Stream Model.World.
 Import ListNotations.
 Local Open Scope N_scope.
 
@@ -265,43 +265,40 @@ Definition sout_s (r : res sout * sstate) : bytes :=
   | (r', s) => res_s (fun _ => []) r' ++ str " q=" ++ decn (List.length (s_q s))
   end.
 
-Record world := mkW { w_ctx : list (N * sstate); w_out : list bytes }.
-Fixpoint upd_nth {A} (n : nat) (a : A) (l : list A) : list A :=
-  match l, n with
-  | [], _ => []
-  | _ :: r, O => a :: r
-  | x :: r, S m => x :: upd_nth m a r
-  end.
-
-Definition run_op (gz : gzoracle) (codec : N) (w : world) (op : bytes) : option world :=
-  match op with
+(* the operations are World.v's; this file only parses and prints *)
+Definition parse_op (o : bytes) : option op :=
+  match o with
   | kind :: rest =>
-      let parts := split_on "!"%byte rest in
-      match parts with
+      match split_on "!"%byte rest with
       | cs :: ps =>
           obind (undec cs) (fun c =>
-          obind (nth_error (w_ctx w) (N.to_nat c)) (fun vs =>
-            let '(v, s) := vs in
-            let set s' o := Some (mkW (upd_nth (N.to_nat c) (v, s') (w_ctx w)) (w_out w ++ [o])) in
+            let c := N.to_nat c in
             if byte_eqb kind "f"%byte then
-              match ps with [h] => obind (unhexx h) (fun d => set (feed s d) (str "FED")) | _ => None end
-            else if byte_eqb kind "u"%byte then
-              let r := stream_unpack gz v codec 3 hdr0 s in set (snd r) (sout_s r)
-            else if byte_eqb kind "a"%byte then
-              let r := read_packets gz v codec (S (List.length (s_q s))) (fun _ => 3%nat) O s in
-              set (snd r) (res_s (fun ps => decn (List.length ps) ++ str " [" ++ join (str " / ") (map pkt_s ps) ++ str "]") (fst r)
-                           ++ str " q=" ++ decn (List.length (s_q (snd r))))
+              match ps with [h] => obind (unhexx h) (fun d => Some (OFeed c d)) | _ => None end
+            else if byte_eqb kind "u"%byte then Some (OUnpack c)
+            else if byte_eqb kind "a"%byte then Some (OAll c)
             else if byte_eqb kind "b"%byte then
-              match ps with [h] => obind (unhexx h) (fun d => set s (res_s pkt_s (unpack_bytes gz v codec hdr0 d))) | _ => None end
+              match ps with [h] => obind (unhexx h) (fun d => Some (OBytes c d)) | _ => None end
             else if byte_eqb kind "p"%byte then
               match ps with
-              | [thr; pk] => obind (undecz thr) (fun thr => obind (parse_pkt (split_on "~"%byte pk)) (fun p =>
-                               set s (res_s (fun r => hexsum (fst r) ++ sp ++ bool_s (m_gzip (p_md (snd r)))) (pack gz v thr hdr0 p))))
+              | [thr; pk] => obind (undecz thr) (fun thr => obind (parse_pkt (split_on "~"%byte pk)) (fun p => Some (OPack c thr p)))
               | _ => None end
-            else None))
+            else None)
       | _ => None
       end
   | [] => None
+  end.
+
+Definition result_s (r : result) : bytes :=
+  match r with
+  | RFed => str "FED"
+  | RStream (Ok SNeed) n => str "NEED q=" ++ decn n
+  | RStream (Ok (SPkt p)) n => str "PKT " ++ pkt_s p ++ str " q=" ++ decn n
+  | RStream r' n => res_s (fun _ => []) r' ++ str " q=" ++ decn n
+  | RAll r' n => res_s (fun ps => decn (List.length ps) ++ str " [" ++ join (str " / ") (map pkt_s ps) ++ str "]") r'
+                 ++ str " q=" ++ decn n
+  | RBytes r' => res_s pkt_s r'
+  | RPack r' => res_s (fun x => hexsum (fst x) ++ sp ++ bool_s (m_gzip (p_md (snd x)))) r'
   end.
 
 Definition run_st (op : bytes) (args0 : list bytes) : bytes :=
@@ -310,17 +307,16 @@ Definition run_st (op : bytes) (args0 : list bytes) : bytes :=
   if bytes_eqb op (str "st.hist") then
     match args with
     | codec :: vers :: ops =>
-        match undec codec, omap_all undec (split_on ","%byte vers) with
-        | Some codec, Some vs =>
-            let w0 := mkW (map (fun v => (v, mkS None [])) vs) [] in
-            match fold_left (fun ow o => obind ow (fun w => run_op gz codec w o)) ops (Some w0) with
-            | Some w => join (str " ; ") (w_out w)
+        match undec codec, omap_all undec (split_on ","%byte vers), omap_all parse_op ops with
+        | Some codec, Some vs, Some ops =>
+            let w0 := mkW (map (fun v => (v, mkS None [])) vs) hdr0 in
+            match run gz codec w0 ops with
+            | Some (_, rs) => join (str " ; ") (map result_s rs)
             | None => bad
             end
-        | _, _ => bad end
+        | _, _, _ => bad end
     | _ => bad end
   else bad.
-
 
 Definition run_line (line : bytes) : bytes :=
   match words line with
